@@ -18,11 +18,12 @@ Lemma conv_feature_pack K k r v :
   conv_feature K (pack k r v) = if kind_eqb K k then Some r else None.
 Proof.
   intros HK H.
+  (* works for a guard written on the masked integer or through Type() *)
   destruct K; try discriminate HK; cbn [conv_feature];
     unfold FeatureID_NodeID, FeatureID_WayID, FeatureID_RelationID;
-    rewrite (type_bits_pack k r v H);
+    repeat first [rewrite (type_bits_pack k r v H) | progress unfold FeatureID_Type, ElementID_Type, ObjectID_Type];
     change (FeatureID_Ref (pack k r v)) with (ObjectID_Ref (pack k r v));
-    rewrite (ref_pack k r v H);
+    rewrite ?(ref_pack k r v H);
     destruct k; reflexivity.
 Qed.
 
@@ -33,9 +34,9 @@ Proof.
   intros HK H.
   destruct K; try discriminate HK; cbn [conv_element];
     unfold ElementID_NodeID, ElementID_WayID, ElementID_RelationID;
-    rewrite (type_bits_pack k r v H);
+    repeat first [rewrite (type_bits_pack k r v H) | progress unfold FeatureID_Type, ElementID_Type, ObjectID_Type];
     change (ElementID_Ref (pack k r v)) with (ObjectID_Ref (pack k r v));
-    rewrite (ref_pack k r v H);
+    rewrite ?(ref_pack k r v H);
     destruct k; reflexivity.
 Qed.
 
@@ -147,12 +148,21 @@ Qed.
 
 (* Member.FeatureID is Type.FeatureID of the member type, a panic replacing the error *)
 Lemma member_feature_id_spec typ ref : member_feature_id typ ref = Type_FeatureID typ ref.
-Proof. reflexivity. Qed.
+Proof.
+  (* the body is either the same switch as Type.FeatureID or a call of it with the error
+     turned into a panic *)
+  unfold member_feature_id, Member_FeatureID.
+  first [reflexivity | destruct (Type_FeatureID typ ref); reflexivity].
+Qed.
 
 Lemma member_element_id_spec typ ref ver :
   member_element_id typ ref ver =
   match Type_FeatureID typ ref with Some f => Some (FeatureID_ElementID f ver) | None => None end.
-Proof. reflexivity. Qed.
+Proof.
+  unfold member_element_id, Member_ElementID.
+  change (Member_FeatureID typ ref) with (member_feature_id typ ref).
+  rewrite member_feature_id_spec. reflexivity.
+Qed.
 
 Lemma member_ids k r v :
   is_element k = true -> in_range r v ->
